@@ -10,6 +10,7 @@ R = z3.RealSort()
 SQRT = z3.Function("SQRT", R, R)
 ATAN2 = z3.Function("ATAN2", R, R, R)       # radians
 DEG = z3.Function("DEG", R, R)
+LOG10 = z3.Function("LOG10", R, R)
 
 
 class MathShim:
@@ -46,7 +47,10 @@ class MathShim:
     def log10(x):
         if not is_sym(x):
             return _math.log10(x)
-        raise Unsupported("math.log10 of a symbolic value")
+        t = SymReal.of(x).t
+        if bool(SymBool(t <= 0)):
+            raise ValueError("math domain error")
+        return SymReal(LOG10(t))
 
 
 class NpShim:
